@@ -102,6 +102,7 @@ func getNum(v reflect.Value) uint64 {
 // numAttempt encodes and decodes one value with numeric leaf lf set to x.
 // status: ok | refused-encode | decode-error | leftover | reencode-diff | diff | no-leaf
 func numAttempt(bc bcase, lf leaf, x uint64) (status, detail string, enc []byte) {
+	currentCase.Store(fmt.Sprintf("%s%s=%#x", bc.name, lf.path, x))
 	v := bc.build()
 	target := safeGet(lf, reflect.ValueOf(v))
 	if !target.IsValid() || !target.CanSet() {
@@ -152,6 +153,9 @@ func numAttempt(bc bcase, lf leaf, x uint64) (status, detail string, enc []byte)
 }
 
 func (c *ctx) runNumeric(bc bcase) {
+	if !c.baselineOK(bc) {
+		return
+	}
 	bc = cached(bc)
 	r := c.r
 	root := reflect.ValueOf(bc.build())
